@@ -136,6 +136,39 @@ def _turn_job(job):
             out.append({"what": f"{job['res']} rotate_tetrahedral CA-CB by {ang} (sense {s})", "want": 0,
                         "got": int(round(worst * 1000)), "dist": int(round(dist * 1e9)), "still": int(round(still * 1e9)),
                         "sense": s})
+        # the same rotation again about a bond that has moved in between (chi1 changed; the whole residue shifted): the
+        # routine must work from the coordinates as they are now
+        g = next((a for a in cb.bonds if a is not ca and not a.name.startswith("H") and [b for b in a.bonds if b is not cb]), None)
+        if g is not None and res.has_atom("N") and len(res.dihedrals) > 0:
+            def probe(label, ang):
+                nb = [a for a in g.bonds if a is not cb]
+                before = {a.name: np.array(a.coords) for a in res.atoms}
+                d0 = [indep_dihedral(before["CA"], before["CB"], before[g.name], before[a.name]) for a in nb]
+                presidue.Residue.rotate_tetrahedral(cb, g, ang)
+                after = {a.name: np.array(a.coords) for a in res.atoms}
+                d1 = [indep_dihedral(after["CA"], after["CB"], after[g.name], after[a.name]) for a in nb]
+                deltas = [((y - x + 180) % 360) - 180 for x, y in zip(d0, d1)]
+                s = 1 if abs(((deltas[0] - ang + 180) % 360) - 180) < abs(((deltas[0] + ang + 180) % 360) - 180) else -1
+                worst = max(abs(((dl - s * ang + 180) % 360) - 180) for dl in deltas)
+                dist = max(abs(np.linalg.norm(after[a.name] - after[x]) - np.linalg.norm(before[a.name] - before[x]))
+                           for a in nb for x in ("CB", g.name))
+                still = max([np.linalg.norm(after[n] - before[n]) for n in before if n not in [a.name for a in nb]] + [0.0])
+                out.append({"what": f"{job['res']} rotate_tetrahedral CB-{g.name} by {ang} {label} (sense {s})", "want": 0,
+                            "got": int(round(worst * 1000)), "dist": int(round(dist * 1e9)), "still": int(round(still * 1e9)), "sense": s})
+            for ang in (25.0, 120.0):
+                probe("first", ang)
+                try:
+                    deb.set_dihedral_angle(res, 0, res.dihedrals[0] + 40.0)
+                except Exception:
+                    pass
+                probe("after chi1 + 40", ang)
+                for a in res.atoms:
+                    a.x, a.y, a.z = a.x + 3.0, a.y - 1.5, a.z + 0.25
+                probe("after a rigid shift", ang)
+                # and after a rigid turn of the whole residue about z by 90 degrees
+                for a in res.atoms:
+                    a.x, a.y = -a.y, a.x
+                probe("after a rigid turn", ang)
     return out
 
 
